@@ -119,9 +119,10 @@ def holds : Expect → Obs → Verdict
   | .disc _, _ => .inconclusive
   | .nothing, _ => .ok
 
-/-- `discard_overflow` the CLI reader must arrive at: what each pool says, `true` when it says nothing -/
+/-- `discard_overflow` the CLI reader must arrive at: what each pool says, `true` when it says nothing (keys of a
+configuration FILE are case-insensitive) -/
 def expectDisc (cfg : Val) : Option (List Bool) :=
-  match cfg with
+  match lowerKeys cfg with
   | .map kvs =>
     match assoc kvs "pools".toList with
     | some (.list pools) =>
